@@ -540,6 +540,7 @@ def run(ctx):
     ctx.require('loss_mid_message_scenarios', 10)
     ctx.require('application_disconnect_scenarios', 10)
     ctx.require('non_blocking_poll_scenarios', 10)
+    ctx.require('calls_across_a_reconnection', 10)
     ctx.extra['scenarios'] = {}
     limit = 1200 if ctx.tier == 'quick' else 40000
     order = [0, 5, 8, 1, 6, 9, 2, 7, 10, 3, 4]
@@ -875,6 +876,98 @@ def after_disconnect_and_polls(ctx, k):
              None)
 
 
+def call_across_reconnect(ctx, k):
+    """call() is in flight when the connection is lost; the reconnection
+    succeeds before the call's own timeout.  call() waits the reconnection
+    out: the event is sent again on the new connection and its
+    acknowledgement is returned (not TimeoutError, not DisconnectedError)."""
+    import socketio
+    from vlib import refcodec as RR
+    rng = ctx.case_rng(8 * 10 ** 7 + k)
+    kind = rng.choice(['sync', 'async'])
+    ns = rng.choice(['/', '/a'])
+    answer = rng.choice([['pong'], [1, 'two'], [{'k': [1]}]])
+
+    class Srv(E.ServerScript):
+        """Accepts every CONNECT; acknowledges 'q' events only on the
+        second and later connections."""
+
+        def on_packet(self, h, pkt):
+            if pkt['type'] == RR.CONNECT:
+                super().on_packet(h, pkt)
+            elif pkt['type'] == RR.EVENT and pkt['data'][0] == 'q' and \
+                    pkt.get('epoch', len(h.attempts)) >= 2:
+                h.deliver(RR.ACK, pkt['nsp'], pkt['id'], answer)
+    h = E.make_client(kind, script=Srv(), client_kw={
+        'reconnection': True, 'reconnection_delay': 1,
+        'randomization_factor': 0})
+    out = {}
+    try:
+        if kind == 'async':
+            class SCli(socketio.AsyncSimpleClient):
+                client_class = staticmethod(lambda *a, **kw: h.c)
+
+            async def go():
+                sc = SCli()
+                await sc.connect('http://x', namespace=ns)
+                task = asyncio.ensure_future(sc.call('q', {'n': 1},
+                                                     timeout=5))
+                await asyncio.sleep(0.5)
+                await h.a_lose()
+                try:
+                    out['result'] = ('ok', await asyncio.wait_for(task, 60))
+                except Exception as e:
+                    out['result'] = (type(e).__name__, None)
+            h.run(go(), horizon=120)
+        else:
+            class SCli(socketio.SimpleClient):
+                client_class = staticmethod(lambda *a, **kw: h.c)
+            sc = SCli()
+            sc.connected_event = E.HEvent(h, 'connected_event')
+            sc.input_event = E.HEvent(h, 'input_event')
+            h.call(sc.connect, 'http://x', namespace=ns)
+            state = {'lost': False}
+
+            def idle(ev, tmo):
+                # the first time the call waits for its acknowledgement and
+                # nothing else can happen: the connection is lost (and the
+                # reconnect task runs)
+                if not state['lost']:
+                    state['lost'] = True
+                    h.lose()
+                    return True
+                return False
+            h.idle_hook = idle
+            try:
+                out['result'] = ('ok', h.call(sc.call, 'q', {'n': 1},
+                                              timeout=5))
+            except Exception as e:
+                out['result'] = (type(e).__name__, None)
+    finally:
+        h.close()
+    ctx.count('calls_across_a_reconnection')
+    want = answer[0] if len(answer) == 1 else answer
+    sent = [p for p in h.sent if p['type'] == RR.EVENT and
+            p['data'][0] == 'q']
+    w = {'part': 'call_across_reconnect', 'case_index': k, 'kind': kind,
+         'namespace': ns, 'acknowledged': answer,
+         'result': jsonable(out.get('result')),
+         'attempts': len(h.attempts), 'q_events_sent': len(sent),
+         'errors': h.all_errors()[:3]}
+    got = out.get('result')
+    if h.all_errors():
+        ctx.violation(None, 'error escaped (%s)' % h.all_errors()[0]['exc'],
+                      w)
+    elif not got or got[0] != 'ok' or not R.deep_eq(
+            list(got[1]) if isinstance(got[1], (list, tuple)) else got[1],
+            want):
+        ctx.violation(None, 'call() in flight across a loss and a successful '
+                      'reconnection ended with %r; the server acknowledged '
+                      '%r on the new connection' % (got, answer), w)
+    else:
+        ctx.case(('call_across_reconnect', kind, ns, len(answer)), None)
+
+
 def random_batch(ctx, k, n):
     for _ in range(n):
         if ctx.out_of_time() or ctx.too_many_violations():
@@ -897,6 +990,8 @@ def random_batch(ctx, k, n):
             loss_mid_message(ctx, k)
         if k % 6 == 0:
             after_disconnect_and_polls(ctx, k)
+        if k % 9 == 0:
+            call_across_reconnect(ctx, k)
         k += 1
     return k
 
@@ -907,6 +1002,8 @@ def replay(ctx, w):
         return connect_arrivals(ctx, wi['case_index'])
     if wi.get('part') == 'loss_mid_message':
         return loss_mid_message(ctx, wi['case_index'])
+    if wi.get('part') == 'call_across_reconnect':
+        return call_across_reconnect(ctx, wi['case_index'])
     if wi.get('part') == 'after_disconnect_and_polls':
         return after_disconnect_and_polls(ctx, wi['case_index'])
     spec, choices = wi['scenario'], wi.get('choices') or []
